@@ -50,4 +50,23 @@ PLAN = {
                 quick=[("c14", "release", 1200)],
                 thorough=[("c14", "release", 40000), ("c14", "checked", 5000)],
                 assumptions=["frame boundaries of the append stream come from refflac", "crashes during finalize are outside the property"]),
+    "C07": dict(level="exploration",
+                rule=("each run builds a valid file with non-periodic PCM, opens one reader front-end over a SimFile behind drawn benign "
+                      "read faults, an optional BufReader of drawn capacity and an optional split point, and drives a drawn history of "
+                      "1-40 operations from {read(n), fill_buf, consume(k), read_to_end, read bursts, iterator} plus 1-5 calls after "
+                      "end-of-stream, comparing every result with a cursor over the PCM model; scenario c07split sweeps every single "
+                      "split point of files <= 2 KiB; fingerprint = API op/result sequence + I/O event sequence; non-trivial = at least "
+                      "one transfer >= 8 bytes"),
+                exhaustive_subspaces=["c07split: every split point 1..len-1 of each generated file <= 2048 bytes"],
+                quick=[("c07", "release", 40000), ("c07split", "release", 400)],
+                thorough=[("c07", "release", 2000000), ("c07", "checked", 200000), ("c07split", "release", 20000)],
+                assumptions=["PcmModel serialisations computed by the harness"]),
+    "C06": dict(level="exploration",
+                rule=("as C07 but on seekable readers, with seeks mixed into the history (targets biased to frame boundaries +-1, "
+                      "mid-frame, 0, end-1, end, end+1, far beyond, Current(+-k), End(-k), byte positions inside a PCM frame) over files "
+                      "with every seek-table shape (none, every frame, sparse, per second, trailing placeholders inserted via "
+                      "update_file) and streams after a junk prefix; oracle = std Cursor semantics over the PCM bytes / samples"),
+                quick=[("c06", "release", 40000)],
+                thorough=[("c06", "release", 2000000), ("c06", "checked", 200000)],
+                assumptions=["no assumption about the position after a failed seek (the history re-seeks)"]),
 }
